@@ -555,6 +555,7 @@ class SimBus:
         self.wkc_fault = None         # callable(frame_no, dgram, wkc) -> wkc
         self._ring_results = {}
         self.route_by_data0 = False   # stand-in for the dispatcher's ethertype rewrite
+        self.send_fault = None        # callable -> True: sendto() fails with ENOBUFS
 
     def add_terminal(self, term):
         self.terminals.append(term)
@@ -710,6 +711,9 @@ class SimPacketTransport(SimDatagramTransport):
         bus = self.buses.get(addr[0])
         if bus is None:
             raise OSError(19, "No such device")
+        if bus.send_fault is not None and bus.send_fault():
+            # the system call fails: the socket's send queue is full
+            raise OSError(105, "No buffer space available")
         bus.transmit(self, bytes(data), addr)
 
     def close(self):
